@@ -222,7 +222,7 @@ func c08EndToEnd(a *selAST) (sig, what string) {
 	d := harness.Build(harness.Shape{Blocks: []harness.BlockSpec{{}}}, "")
 	var statuses []graphsync.ResponseStatusCode
 	var panicked string
-	s := vsched.Run(vsched.Config{}, func() {
+	s := vsched.Run(vsched.Config{Fast: true}, func() {
 		f := harness.NewFixture(false)
 		split := harness.Split{2}
 		_, rs := d.Stores(split)
@@ -281,14 +281,16 @@ func c08Chains(max int) []c08Chain {
 		"R100":  func() *selAST { return &selAST{K: "R", Limit: 100, Kids: []*selAST{ae()}} },
 	}
 	wrap := map[string]func(in *selAST) *selAST{
-		"a": func(in *selAST) *selAST { return &selAST{K: "a", Kids: []*selAST{in}} },
-		"f": func(in *selAST) *selAST { return &selAST{K: "f", Kids: []*selAST{in}} },
-		"i": func(in *selAST) *selAST { return &selAST{K: "i", Kids: []*selAST{in}} },
-		"r": func(in *selAST) *selAST { return &selAST{K: "r", Kids: []*selAST{in}} },
-		"~": func(in *selAST) *selAST { return &selAST{K: "~", Kids: []*selAST{in}} },
-		"|": func(in *selAST) *selAST { return &selAST{K: "|", Kids: []*selAST{{K: "."}, in}} },
+		"a":  func(in *selAST) *selAST { return &selAST{K: "a", Kids: []*selAST{in}} },
+		"f":  func(in *selAST) *selAST { return &selAST{K: "f", Kids: []*selAST{in}} },
+		"i":  func(in *selAST) *selAST { return &selAST{K: "i", Kids: []*selAST{in}} },
+		"r":  func(in *selAST) *selAST { return &selAST{K: "r", Kids: []*selAST{in}} },
+		"~":  func(in *selAST) *selAST { return &selAST{K: "~", Kids: []*selAST{in}} },
+		"|":  func(in *selAST) *selAST { return &selAST{K: "|", Kids: []*selAST{{K: "."}, in}} },
 		"f2": func(in *selAST) *selAST { return &selAST{K: "f2", Kids: []*selAST{in, {K: "."}}} },
-		"R7": func(in *selAST) *selAST { return &selAST{K: "R", Limit: 7, Kids: []*selAST{{K: "|", Kids: []*selAST{ae(), in}}}} },
+		"R7": func(in *selAST) *selAST {
+			return &selAST{K: "R", Limit: 7, Kids: []*selAST{{K: "|", Kids: []*selAST{ae(), in}}}}
+		},
 	}
 	for _, wk := range []string{"a", "f", "i", "r", "~", "|", "f2", "R7"} {
 		for _, bk := range []string{"Rnone", "R101", "R100"} {
@@ -309,9 +311,9 @@ func c08Chains(max int) []c08Chain {
 }
 
 type c08Case struct {
-	Depth int  `json:"depth"`
-	Index int  `json:"index"`
-	E2E   bool `json:"end_to_end"`
+	Depth int    `json:"depth"`
+	Index int    `json:"index"`
+	E2E   bool   `json:"end_to_end"`
 	Spec  string `json:"spec"`
 }
 
